@@ -83,7 +83,7 @@ type c12Op struct {
 	N   string   `json:"n,omitempty"` // symbol
 	V   int      `json:"v,omitempty"` // value code: 0..7 pool, >=100 the int64 itself
 	A   int      `json:"a"`           // >=0: the value is the *env.Env of this scope handle
-	F   int      `json:"f,omitempty"` // API form (interface / reflect.Value / addressable; Get vs GetValue; type forms)
+	F   int      `json:"f,omitempty"` // API form (interface / reflect.Value / addressable / boxed and read-only reflect.Values, c12_r6.go; Get vs GetValue; type forms)
 	T   int      `json:"t,omitempty"` // type pool index
 	P   []string `json:"p,omitempty"` // path
 	X   int      `json:"x"`           // external lookup object (-1 = nil)
@@ -632,9 +632,22 @@ func (w *c12World) exec(i int, op *c12Op) {
 		case 2:
 			rv = reflect.New(reflect.TypeOf(v)).Elem()
 			rv.Set(reflect.ValueOf(v))
+		case c12FormMapElem, c12FormIfaceCell:
+			// the value arrives boxed in a reflect.Value of kind Interface (c12_r6.go)
+			rv = c12BoxValue(v, form)
+		case c12FormROField, c12FormROCell, c12FormROStruct:
+			// a reflect.Value read out of an unexported struct field (c12_r6.go)
+			rv = c12ReadOnlyValue(v, form)
 		}
-		fn := c12DefineNames[op.K][form]
-		call = fmt.Sprintf("s%d.%s(%q, %s%s)", op.S, fn, op.N, w.renderVal(v), []string{"", " as reflect.Value", " as addressable reflect.Value"}[form])
+		readOnly := form >= c12FormROField
+		fn := c12DefineNames[op.K][c12Min(form, 1)]
+		call = fmt.Sprintf("s%d.%s(%q, %s%s)", op.S, fn, op.N, w.renderVal(v), c12FormSuffix[form])
+		if form >= c12FormMapElem {
+			w.tags["bind:"+c12FormTag[form]]++
+			if op.A >= 0 {
+				w.tags["bind:module:"+c12FormTag[form]]++
+			}
+		}
 		var err error
 		w.apiCalls++
 		pan = c12Protect(func() {
@@ -671,6 +684,13 @@ func (w *c12World) exec(i int, op *c12Op) {
 			// Failing, and updating the nearest table binding, are both accepted.
 			either = shadow && target != nil
 		}
+		if readOnly {
+			// reflect forbids handing such a value out again as an interface value,
+			// so no later Get could "return the nearest enclosing binding": the
+			// request cannot be honoured and is invalid - an error, every scope
+			// unchanged (the audit below), no panic.
+			expectFail, either = true, false
+		}
 		if pan != nil {
 			if either {
 				expectFail = true
@@ -679,6 +699,12 @@ func (w *c12World) exec(i int, op *c12Op) {
 			break
 		}
 		outcome = c12ErrStr(err)
+		if readOnly {
+			if err == nil {
+				resFail("readonly-value-accepted", "a reflect.Value read out of an unexported struct field was accepted as a binding")
+			}
+			break
+		}
 		if either {
 			w.tags["set:ext-shadowed"]++
 			if err == nil {
@@ -1046,7 +1072,12 @@ func (w *c12World) exec(i int, op *c12Op) {
 			v = a.real
 		}
 		call = fmt.Sprintf("ext%d.values[%q] = %s", op.X, op.N, w.renderVal(v))
-		if v == nil && i%2 == 1 {
+		if op.F == c12FormMapElem || op.F == c12FormIfaceCell {
+			// the lookup object answers the value boxed in a reflect.Value of kind Interface (c12_r6.go)
+			call += c12FormSuffix[op.F]
+			w.tags["ext:"+c12FormTag[op.F]]++
+			x.vals[op.N] = c12BoxValue(v, op.F)
+		} else if v == nil && i%2 == 1 {
 			// a lookup object may answer the zero reflect.Value without an error: that reads as nil too
 			call = fmt.Sprintf("ext%d.values[%q] = reflect.Value{}", op.X, op.N)
 			x.vals[op.N] = reflect.Value{}
@@ -1285,6 +1316,7 @@ func (g *c12Gen) valueOp(k string, s int) c12Op {
 	default:
 		op.A = g.w.order[g.r.Intn(len(g.w.order))] // an existing scope as a value: a module alias
 	}
+	g.r6Form(&op)
 	return op
 }
 
@@ -1440,6 +1472,7 @@ func (g *c12Gen) next() c12Op {
 			if r.Intn(5) == 0 {
 				base.A = g.w.order[r.Intn(len(g.w.order))]
 			}
+			g.r6ExtForm(&base)
 			return base
 		case k < 98:
 			base.K, base.X, base.N = "ExtDel", r.Intn(3), c12PlainNames[r.Intn(len(c12PlainNames))]
@@ -1741,9 +1774,13 @@ func init() {
 					"phase paths: PRNG histories of 30-90 calls centred on path lookup: modules with sub-modules on a forest of <=10 scopes, module names rebound to plain values and to other modules in nearer scopes, " +
 					"external lookups answering plain values and modules, path lookups of 1-3 elements from every depth. Whenever the statement leaves the scope denoted by the first element of a path open, the same scope also looks up " +
 					"the one-element prefix and up to four two-element extensions in the same state: all results must follow ONE reading of the first element. " +
+					"Values reach Define/DefineGlobal/Set in 8 forms: interface value, reflect.Value, addressable reflect.Value, reflect.Value of kind Interface (element of a map[string]interface{}; pointee of a *interface{}) - " +
+					"the model binds the carried value whatever the form, so a module bound through an interface-kind reflect.Value must be a namespace for path lookup like any other - and read-only reflect.Values " +
+					"(read out of an unexported struct field, plain / addressable / struct-typed), which must be refused with an error and an unchanged state; external lookups answer boxed values too. " +
 					"A history is non-trivial when it performed >=2 state changes on >=2 scopes; distinct = distinct operation list.",
 				Assumptions: []string{
 					"values are compared by Go interface equality (pool: nil, int64, string, bool, float64, one pointer, *env.Env); reflect.Values handed to the API are always valid",
+					"a reflect.Value that reflect marks read-only (obtained through an unexported struct field) cannot be returned by Get, so binding one is taken to be an invalid request (error, state unchanged); external lookups never answer such values",
 					"external lookups are harness objects holding plain (undotted) names; they answer plain values and modules (existing scopes)",
 					"accepted both ways: Set/DeleteGlobal of a name an external lookup of a nearer scope supplies; path lookup whose nearest first-element binding is a non-module while an outer module exists, or whose first element an external lookup answers with a module (three readings of the first element: nearest binding / nearest table module / nearest module with lookups; one reading must explain a path, its one-element prefix and its two-element extensions in one state); later path elements that only the module's external lookup or parent chain could supply; Addr returning 'unaddressable'",
 				},
